@@ -23,7 +23,10 @@ package pubsub
 
 import (
 	"context"
+	"encoding/hex"
 	"fmt"
+	"io"
+	"log/slog"
 	"sort"
 	"strconv"
 	"strings"
@@ -176,6 +179,8 @@ type vfMsgSpec struct {
 	Author string // peer label or "x" (unknown third party) or "N" (the node itself)
 	Seq    uint64
 	Size   int
+	SeqHex string `json:",omitempty"` // raw seqno bytes (hex) overriding Seq; "-" = no seqno field
+	Data   string `json:",omitempty"` // payload override (default: the label)
 }
 
 type vfDelivery struct {
@@ -214,6 +219,7 @@ type vfGW struct {
 	valPend   []*vfValInv
 	valLog    []string
 	held      map[string]bool // NewStream to this peer is blocked
+	meta      *vfMetaStore
 	cancelled []*Subscription
 	closeErr  map[string]string
 }
@@ -272,6 +278,10 @@ func newVfGW(x *vfExec, cfg *vfGWCfg, msgs map[string]vfMsgSpec, extra ...Option
 	}
 	if cfg.IDFn == "content" {
 		opts = append(opts, WithMessageIdFn(vfContentID))
+	}
+	if cfg.Extra["seqno_validator"] != "" {
+		g.meta = &vfMetaStore{m: map[peer.ID][]byte{}}
+		opts = append(opts, WithDefaultValidator(NewBasicSeqnoValidator(g.meta, slog.New(slog.NewTextHandler(io.Discard, nil)))))
 	}
 	for _, vc := range cfg.Validators {
 		if vc.Topic == "" {
@@ -362,6 +372,27 @@ func vfDecay(ms int) time.Duration {
 		return time.Hour
 	}
 	return time.Duration(ms) * time.Millisecond
+}
+
+// vfMetaStore is the application's PeerMetadataStore for the sequence-number validator.
+type vfMetaStore struct {
+	mu   sync.Mutex
+	m    map[peer.ID][]byte
+	puts []string // "author=value" in commit order
+}
+
+func (s *vfMetaStore) Get(ctx context.Context, p peer.ID) ([]byte, error) {
+	s.mu.Lock()
+	defer s.mu.Unlock()
+	return s.m[p], nil
+}
+
+func (s *vfMetaStore) Put(ctx context.Context, p peer.ID, v []byte) error {
+	s.mu.Lock()
+	defer s.mu.Unlock()
+	s.m[p] = append([]byte{}, v...)
+	s.puts = append(s.puts, fmt.Sprintf("%s=%x", vfName(p), v))
+	return nil
 }
 
 func vfContentID(m *pb.Message) string { return "cid:" + string(m.GetData()) }
@@ -498,11 +529,24 @@ func (g *vfGW) pbMsg(m string) *pb.Message {
 	}
 	data := make([]byte, size)
 	copy(data, m)
+	if spec.Data != "" {
+		copy(data, spec.Data)
+	}
 	var from peer.ID
 	if spec.Author != "" {
 		from = g.pid(spec.Author)
 	}
-	return vfMsg(spec.Topic, from, spec.Seq, data)
+	pm := vfMsg(spec.Topic, from, spec.Seq, data)
+	if spec.SeqHex == "-" {
+		pm.Seqno = nil
+	} else if spec.SeqHex != "" {
+		b, err := hex.DecodeString(spec.SeqHex)
+		if err != nil {
+			panic(err)
+		}
+		pm.Seqno = b
+	}
+	return pm
 }
 
 func (g *vfGW) msgID(m string) string {
